@@ -226,6 +226,9 @@ func (x *gen) tape(n, words, style int) []uint32 {
 // misses exactly one of them; tapes are aimed at such candidates, one requirement at a time.
 func (x *gen) manySetsOp() {
 	n := 9 + x.g.intn(2)
+	if x.g.chance(25) {
+		n = 13 + x.g.intn(2) // beyond any hand-picked ceiling on the number of sets
+	}
 	chars := []rune("abcdefghijklmnopqrstuvwxyz")[:n+1+x.g.intn(2)]
 	var r recipeSpec
 	for i := 0; i < n; i++ {
@@ -892,6 +895,11 @@ func (x *gen) budgetBoundaryOps() {
 		x.emit("chargen r=%s T=0 fr=1:1000000000 tape=1.2.3.4.5.6.7.8.9.10.11.12", r)
 	}
 	x.emit("wlgen words=%s titles=%s L=3 sep=preset:d1 cap=%s T=0 fr=1:1000000000 tape=1.2.3.4.5.6.7.8.9.10", encList([]string{"uno", "dos"}), encList([]string{"Uno", "Dos"}), encCps("none"))
+	// a caller's own separator function is none of the budget's business
+	for _, T := range []int{0, 1} {
+		x.emit("wlent words=%s titles=%s L=4 sep=custom:16:45,46,95 cap=%s T=%d fr=1:1000000000 tape=1.2.3.4.5.6.7.8", encList([]string{"uno", "dos"}), encList([]string{"Uno", "Dos"}), encCps("none"), T)
+		x.emit("wlgen words=%s titles=%s L=4 sep=custom:16:45,46,95 cap=%s T=%d fr=1:1000000000 tape=1.2.3.4.5.6.7.8.9.10.11.12", encList([]string{"uno", "dos"}), encList([]string{"Uno", "Dos"}), encCps("none"), T)
+	}
 	// 20,000 permitted attempts, success chance 1/50 per attempt, a stream of 10,500 failing
 	// candidates: the generator must still be drawing when the stream ends
 	var ac []rune
@@ -910,6 +918,54 @@ func (x *gen) budgetBoundaryOps() {
 			limit := uint32(0xFFFFFFFF - 0xFFFFFFFF%uint64(n))
 			t := []uint32{limit, 0xFFFFFFFF, limit + (0xFFFFFFFF-limit)/2, 0xFFFFFFFF, x.g.u32() % limit}
 			x.emit("draw n=%d T=%d tape=%s", n, T, encWords(t))
+		}
+	}
+}
+
+// thirteenSetsOps: thirteen and fourteen disjoint two-letter required sets at lengths where a
+// fair share of the strings qualify (the exact fraction is 0.13 to 0.9): the count, the success
+// probability and the pre-flight decision for MANY required sets.
+func (x *gen) thirteenSetsOps() {
+	for _, n := range []int{13, 14} {
+		var r recipeSpec
+		for i := 0; i < n; i++ {
+			r.rs = append(r.rs, string([]rune{rune('a' + 2*i%26), rune('A' + 2*i%26)}))
+		}
+		for _, L := range []int{26, 30, 40, 60} {
+			r.L = L
+			x.emit("charinfo r=%s", r.enc())
+		}
+	}
+}
+
+// soleWitnessOps: k one-character required sets, a candidate that holds the first k-1 of them in
+// its leading positions and misses the last, and a budget of ONE attempt: the answer is the
+// exhaustion error — not a password "repaired" by overwriting some position, which would lose the
+// only witness of another set.
+func (x *gen) soleWitnessOps() {
+	for k := 2; k <= 5; k++ {
+		var r recipeSpec
+		r.L = k + 1
+		r.ac = "x"
+		req := "abcde"[:k]
+		for _, c := range req {
+			r.rs = append(r.rs, string(c))
+		}
+		if x.g.chance(50) { // the sets in another order
+			r.rs[0], r.rs[k-1] = r.rs[k-1], r.rs[0]
+		}
+		// sorted alphabet: a b c d e (k of them) then x at index k
+		for miss := 0; miss < k; miss++ {
+			var t []uint32
+			for i := 0; i < k; i++ {
+				if i != miss {
+					t = append(t, uint32(i))
+				}
+			}
+			for len(t) < r.L {
+				t = append(t, uint32(k))
+			}
+			x.emit("chargen r=%s T=1 fr=1:1 tape=%s", r.enc(), encWords(append(t, 0, 0, 0, 0, 0, 0, 0, 0)))
 		}
 	}
 }
@@ -1623,6 +1679,7 @@ func generate(prop, tier string, seed uint64) []string {
 		rep(400, func() { x.chargenOp(x.recipe(1), "") })
 		rep(300, func() { x.chargenOp(x.recipe(0), "") })
 	case "C03":
+		x.soleWitnessOps()
 		for i := 0; i < 10*scale/scale; i++ {
 			x.manySetsOp()
 		}
@@ -1633,6 +1690,8 @@ func generate(prop, tier string, seed uint64) []string {
 		// every flag combination of one field against random others (a seed-permuted slice)
 		rep(300, func() { x.charinfoOp(x.recipe(2)) })
 	case "C04":
+		// another complete call made in the middle of a generation: the choices are this call's own
+		rep(40, func() { x.wlgenOp("wlgen", fmt.Sprintf(" reenter=%d", 1+x.g.intn(8))) })
 		x.chunkedOps(10)
 		x.budgetBoundaryOps()
 		rep(40, x.longCapsOp)
@@ -1652,6 +1711,7 @@ func generate(prop, tier string, seed uint64) []string {
 		x.charLengthBlock()
 		rep(30, x.longCapsOp)
 	case "C07":
+		x.thirteenSetsOps()
 		x.charLengthBlock()
 		rep(12, x.cancellationOp)
 		for i := 0; i < 3; i++ {
@@ -1661,6 +1721,7 @@ func generate(prop, tier string, seed uint64) []string {
 		rep(1200, func() { x.charinfoOp(x.recipe(3)) })
 		rep(400, func() { x.charinfoOp(x.recipe(0)) })
 	case "C08":
+		x.budgetBoundaryOps()
 		x.wlLengthBlock()
 		// Entropy() on a source that fails at its first read: a panic, or the recipe's value — never another value
 		for _, sp := range []string{"preset:d1", "preset:ds", "preset:sym", "recipe:2/4/0/0/_/-/_", "preset:none", "char:45"} {
@@ -1695,6 +1756,8 @@ func generate(prop, tier string, seed uint64) []string {
 		rep(3000, x.tokenizeOp)
 		rep(800, x.explodeOp)
 	case "C13":
+		x.thirteenSetsOps()
+		x.soleWitnessOps()
 		x.budgetBoundaryOps()
 		rep(700, func() { x.chargenOp(x.recipe(x.g.intn(4)), "") })
 		rep(500, func() { x.charinfoOp(x.recipe(x.g.intn(4))) })
@@ -1718,6 +1781,13 @@ func generate(prop, tier string, seed uint64) []string {
 		rep(60, func() { x.wlgenOp("wlgen", fmt.Sprintf(" reenter=%d", 1+x.g.intn(6))) })
 		rep(60, func() { x.historyOps(25) })
 	case "C16":
+		for _, sp := range []string{"preset:d1", "preset:d2", "preset:dna2", "preset:sym", "preset:ds"} {
+			t := make([]uint32, 24)
+			for i := range t {
+				t[i] = x.g.u32()
+			}
+			x.emit("wlgen words=%s titles=%s L=4 sep=%s cap=%s tape=%s reenter=%d", encList([]string{"uno", "dos", "tres"}), encList([]string{"Uno", "Dos", "Tres"}), sp, encCps("one"), encWords(t), 2+x.g.intn(5))
+		}
 		x.classRoleBlock()
 		x.presetCells()
 		x.emit("wlnew words=@agilewords show=0 reps=1")
@@ -1821,6 +1891,15 @@ func generate(prop, tier string, seed uint64) []string {
 			}
 		}
 	case "C18":
+		// a word (and a separator) too long for an index: nothing about it may be written anywhere
+		{
+			long := strings.Repeat("qzvkjunkline", 25)
+			ws := []string{long, "short", long + "x"}
+			for i := 0; i < 3; i++ {
+				x.emit("wlgen words=%s titles=%s L=3 sep=char:45 cap=%s tape=%d.%d.%d.0.0.0", encList(ws), encList(wordTitles(ws)), encCps("first"), i, (i+1)%3, (i+2)%3)
+			}
+			x.emit("wlgen words=%s titles=%s L=3 sep=const:%s cap=%s tape=0.1.0.0.0", encList([]string{"a", "b"}), encList([]string{"A", "B"}), encCps(strings.Repeat("-=", 150)), encCps("none"))
+		}
 		rep(300, func() { x.chargenOp(x.recipe(x.g.intn(4)), "") })
 		rep(200, func() { x.charinfoOp(x.recipe(x.g.intn(4))) })
 		rep(300, func() { x.wlgenOp("wlgen", "") })
